@@ -22,7 +22,7 @@ from ..values import (Const, Sym, CRef, FRef, Bound, Obj, Tup, App, New,
                       Raise, Coll, walk)
 from ..interp import Interp, Hooks
 from ..galg import GraphHooks
-from ..report import Finding, RuleResult, floor
+from ..report import Finding, RuleResult, floor, Attempts
 from .c13 import syntactic_param_writes
 
 PROP = 'C12'
@@ -223,6 +223,7 @@ def rule_scc(prog):
     floor('R-SCC-1', 'lowlink updates', len(r1.instances), 1)
     # emission vs push
     nem = npush = 0
+    D_role = []
     for (p, s) in res:
         ys = p.heap[p.heap[fo].vars['$yield'].oid].parts
         root = [pol for (c, pol) in p.pc if isinstance(c, App) and
@@ -245,6 +246,8 @@ def rule_scc(prog):
                 isinstance(other[0], App) and other[0].op == 'item' and \
                 other[0].args[1] == v and other[0].args[0] != L
             D = other[0].args[0] if okroot else None
+            if D is not None and not D_role:
+                D_role.append(D)
             r2.inst(path='emit', condition=[('' if pol else 'not ') +
                                             repr(c)[:70]
                                             for (c, pol) in p.pc][:4],
@@ -336,7 +339,125 @@ def rule_scc(prog):
     if nem == 0 or npush == 0:
         raise Inconclusive('R-SCC-2', 'emission / push paths: %d / %d' % (
             nem, npush), f.where())
+    ROLES['L'], ROLES['D'] = L, D_role[0] if D_role else None
     return [r1, r2, r3, r4]
+
+
+ROLES = {}
+
+
+def discovery_block(f):
+    """the body of the `try` whose handler is the post-order block: one step
+    of the DFS driver (take the next successor, open it if it is new)"""
+    for n in ast.walk(f.node):
+        if isinstance(n, ast.Try):
+            for h in n.handlers:
+                if h.type is not None and \
+                        'StopIteration' in ast.unparse(h.type):
+                    return n.body
+    raise Inconclusive('R-SCC-6', 'DFS step not found', f.where())
+
+
+def _popped_names(f):
+    out = set()
+    for n in ast.walk(f.node):
+        if isinstance(n, ast.Call) and isinstance(n.func, ast.Attribute) \
+                and n.func.attr in ('pop', 'popleft', 'remove', 'clear') and \
+                isinstance(n.func.value, ast.Name):
+            out.add(n.func.value.id)
+        if isinstance(n, ast.Delete):
+            for t in n.targets:
+                for m in ast.walk(t):
+                    if isinstance(m, ast.Name):
+                        out.add(m.id)
+    return out
+
+
+def rule_scc6(prog):
+    """discovery numbering: a node opened by the DFS driver gets a number
+    strictly greater than every number given before in this tree, and its
+    lowlink starts at that number"""
+    r = RuleResult('R-SCC-6', 'discovery: a newly opened node gets a '
+                   'strictly increasing number, lowlink starts equal to it')
+    f = prog.func('graph.compute_SCCs')
+    L, D = ROLES.get('L'), ROLES.get('D')
+    if L is None or D is None:
+        raise Inconclusive('R-SCC-6', 'roles lowlink / disc not established',
+                           f.where())
+    block = discovery_block(f)
+    I, res, fo = interpret_block(prog, f, block)
+    popped = _popped_names(f)
+    n = 0
+    for (p, s) in res:
+        if isinstance(s, Raise):
+            continue
+        sets = [e for e in p.log if e.kind == 'setitem']
+        dsets = [e for e in sets if e.target == D]
+        lsets = [e for e in sets if e.target == L]
+        if not dsets:
+            continue
+        n += 1
+        for e in dsets:
+            k, val = e.args
+            new = any(isinstance(c, App) and c.op == 'in' and
+                      c.args[0] == k and c.args[1] == D and not pol
+                      for (c, pol) in e.pc)
+            form = 'unknown'
+            if isinstance(val, App) and val.op == 'binop' and \
+                    val.args[0].v == '+' and \
+                    isinstance(val.args[1], Sym) and \
+                    isinstance(val.args[2], Const) and \
+                    isinstance(val.args[2].v, int) and val.args[2].v > 0:
+                # counter + c ; the counter variable keeps the new value
+                cname = val.args[1].name
+                kept = p.heap[fo].vars.get(cname) == val
+                form = 'counter' if kept else 'counter-not-updated'
+            elif isinstance(val, App) and val.op == 'len' and \
+                    len(val.args) == 1:
+                x = val.args[0]
+                base = x.name if isinstance(x, Sym) else None
+                if x == D and getattr(D, 'name', None) not in popped:
+                    form = 'size-of-disc'
+                elif base in popped:
+                    form = 'size-of-shrinking:' + base
+            linit = [e2 for e2 in lsets if e2.args[0] == k]
+            lok = bool(linit) and all(e2.args[1] == val for e2 in linit)
+            r.inst(opens=repr(k), number=repr(val)[:80], form=form,
+                   guarded_by_not_discovered=new, lowlink_starts_equal=lok)
+            where = I.where(e.node, f.module)
+            if form in ('counter', 'size-of-disc'):
+                r.ok()
+            elif form == 'unknown':
+                raise Inconclusive('R-SCC-6', 'discovery number %r' % (val,),
+                                   where)
+            else:
+                r.fail(Finding(
+                    PROP, 'R-SCC-6', where, f.short(),
+                    'numbering:%s' % form,
+                    'the discovery number `%s` given to a newly opened node '
+                    'is not strictly increasing (%s): two nodes of one DFS '
+                    'tree can get the same or a smaller number, so the '
+                    'tree/back-edge test and the root test compare wrong '
+                    'values and components are split or merged' % (
+                        ast.unparse(e.node)[:80], form)))
+            if new:
+                r.ok()
+            else:
+                r.fail(Finding(
+                    PROP, 'R-SCC-6', where, f.short(), 'renumbering',
+                    'a discovery number is assigned to a node without the '
+                    'test that it has not been discovered yet'))
+            if lok:
+                r.ok()
+            else:
+                r.fail(Finding(
+                    PROP, 'R-SCC-6', where, f.short(), 'lowlink-init',
+                    'the lowlink of a newly opened node does not start at '
+                    'its discovery number'))
+    if n == 0:
+        raise Inconclusive('R-SCC-6', 'no path of the DFS step opens a node',
+                           f.where())
+    return r
 
 
 def rule_scc5(prog):
@@ -356,7 +477,9 @@ def rule_scc5(prog):
 
 
 def run(prog, tier, seed):
-    results = rule_scc(prog) + [rule_scc5(prog)]
+    T = Attempts()
+    results = T.results(T(rule_scc, prog), T(rule_scc6, prog),
+                        T(rule_scc5, prog))
     expl = ('PARTIAL. The post-order step of compute_SCCs (the block run '
             'when the successors of the top of the DFS stack are exhausted) '
             'is interpreted abstractly on symbolic bookkeeping state; the '
@@ -374,4 +497,4 @@ def run(prog, tier, seed):
     assumptions = ['the algorithm keeps the shape "DFS stack + post-order '
                    'lowlink step"; another algorithm is INCONCLUSIVE',
                    'exactness of the components is not decided']
-    return results, expl, assumptions, {}
+    return results, expl, assumptions, T.extra()
